@@ -90,7 +90,7 @@ na = [{"property_id": p['id'], "reason": "check not built yet (work in progress;
 extra_na = {}
 m = {
  "version": 1,
- "setup_cmd": "cd /verif/engine && GOFLAGS=-mod=mod GOPROXY=off GOSUMDB=off GOTOOLCHAIN=local go build -o /verif/bin/symgo ./cmd/symgo",
+ "setup_cmd": "cd /verif/engine && GOFLAGS=-mod=mod GOPROXY=off GOSUMDB=off GOTOOLCHAIN=local go build -o /verif/bin/symgo ./cmd/symgo && /verif/tools/selftest.sh",
  "hooks": {"guard": "verif", "enable": "none needed: harnesses are injected into the real packages at load time through go/packages Overlay (and go test -overlay for native replay); nothing is written into /repo", "baseline_off_cmd": "cd /repo && go test -vet=off -count=1 -timeout 25m ./...", "source_commits": [], "add_only": True},
  "engines": [{"name": "symgo", "path": "/verif/engine", "serves_properties": sorted(claimed), "kind_free_text": "symbolic executor for Go SSA (golang.org/x/tools/go/ssa v0.29.0) emitting SMT-LIB2 bit-vector queries to z3; native replay of models with go test -overlay"}],
  "checks": checks,
